@@ -6,6 +6,20 @@ import os
 HERE = os.path.dirname(os.path.dirname(os.path.abspath(__file__)))
 
 CLAIMS = {
+    "C08": dict(
+        text="Static completeness/ownership analysis: every arm-keyed dictionary of the abstract object graph "
+             "(incl. nested, per-cluster and per-arm-model state, all 55 configurations) is shown to be updated on "
+             "the add_arm path and popped on the remove_arm path (collections of policies in loops over all of "
+             "them); fields parallel to the arm list must be maintained; all policy objects reference the one list "
+             "object MAB.arms, mutated only by the facade; predict_expectations returns fresh label-keyed "
+             "dictionaries and predict returns labels; the single-vs-list unwrapping idioms and the per-row output "
+             "assignment are checked over {no contexts, one row, many rows}. Decides the bookkeeping structure for "
+             "every history; reports the stale no_nhood_prob_of_arm as a known finding.",
+        note="Trusted: dict insertion order; MAB validation keeps arms duplicate-free; externals table.",
+        technique="completeness check of effect summaries over abstract-interpretation traces and the abstract "
+                  "heap (arm-keyed containers by label taint), object-identity check of the shared arm list, "
+                  "idiom matching for result cardinality",
+        ref="DESIGN.md section 3, C08"),
     "C14": dict(
         text="Static typestate analysis: abstract interpretation with a persistent abstract heap explores the "
              "protocol automaton {fit, partial_fit, add_arm(with/without binarizer), predict, predict_expectations} "
